@@ -5,7 +5,7 @@
 P="$1"; SPEC="$2"; RE="$3"; OUT="$4"; S=/tmp/wt/seedrepo
 cd /verif
 git -C $S checkout -- . ; git -C $S apply "$P" || { echo "patch does not apply"; exit 3; }
-( YAKUSHIMA_REPO=$S Y_NO_CACHE=1 python3 tools/yspec.py "$SPEC" "$RE" > "$OUT" 2>&1 & )
+( YAKUSHIMA_REPO=$S python3 tools/yspec.py "$SPEC" "$RE" > "$OUT" 2>&1 & )
 for i in $(seq 1 600); do grep -q "^emitted\|EXTRACTION\|Traceback" "$OUT" 2>/dev/null && break; sleep 1; done
 git -C $S checkout -- .
 head -2 "$OUT"
